@@ -245,6 +245,49 @@ func memNodeCanon(n ast.Node, err error) string {
 	return "ok:" + hexArg([]byte(raw))
 }
 
+type memEncVal struct {
+	Name string                 `json:"name"`
+	Data []byte                 `json:"data"`
+	F    float64                `json:"f"`
+	N    []interface{}          `json:"n"`
+	M    map[string]interface{} `json:"m"`
+	P    *[]byte                `json:"p"`
+}
+
+var memEncOpts = []encoder.Options{0, encoder.EscapeHTML, encoder.SortMapKeys, encoder.NoEncoderNewline,
+	encoder.EscapeHTML | encoder.SortMapKeys | encoder.CompactMarshaler, encoder.ValidateString}
+
+// memEncInto: encoder.EncodeInto(&buf, v, opts) into a CALLER-SUPPLIED buffer of a chosen capacity (the generated
+// code keeps the live capacity in a register next to the arguments of the native subroutines, so a capacity that
+// is not a multiple of 8 is an input of its own).  arg = cap (2 bytes, big endian) | option selector | payload.
+// The same value is then encoded a second time into the same (now possibly regrown) buffer, and once through the
+// pooled-buffer entry point; all three outputs are part of the answer.
+func memEncInto(api string, arg []byte) string {
+	if len(arg) < 3 {
+		return "badarg"
+	}
+	capacity := int(arg[0])<<8 | int(arg[1])
+	opts := memEncOpts[int(arg[2])%len(memEncOpts)]
+	payload := append([]byte{}, arg[3:]...)
+	var v interface{}
+	if api == "encinto_bytes" {
+		v = payload
+	} else {
+		half := payload[:len(payload)/2]
+		v = &memEncVal{Name: string(payload), Data: payload, F: float64(len(payload)) / 7,
+			N: []interface{}{half, string(half), 1.5, nil, []interface{}{payload}},
+			M: map[string]interface{}{"b": payload}, P: &half} // one key: map order is random without SortMapKeys
+	}
+	buf := make([]byte, 0, capacity)
+	err := encoder.EncodeInto(&buf, v, opts)
+	first := append([]byte{}, buf...)
+	n1 := len(buf)
+	err2 := encoder.EncodeInto(&buf, v, opts)
+	second := append([]byte{}, buf[n1:]...)
+	third, err3 := encoder.Encode(v, opts)
+	return memErrCanon(err) + ":" + hexArg(first) + ":" + memErrCanon(err2) + ":" + hexArg(second) + ":" + memErrCanon(err3) + ":" + hexArg(third)
+}
+
 // memCallAPI runs one public entry point on the given view of the input.
 func memCallAPI(api string, s string, b []byte) string {
 	switch api {
@@ -370,6 +413,8 @@ func memCallAPI(api string, s string, b []byte) string {
 	case "ast_loads":
 		p, v, err := ast.Loads(s)
 		return memErrCanon(err) + ":" + itoa(p) + ":" + memValCanon(v)
+	case "encinto_bytes", "encinto_any":
+		return memEncInto(api, b)
 	case "ftoa64":
 		if len(b) != 8 {
 			return "badarg"
@@ -409,7 +454,7 @@ var memCfgNum = sonic.Config{UseNumber: true}.Froze()
 
 // apis whose argument is not a byte string placed in memory
 func memScalarAPI(api string) bool {
-	return api == "ftoa64" || api == "ftoa32" || api == "itoa"
+	return api == "ftoa64" || api == "ftoa32" || api == "itoa" || api == "encinto_bytes" || api == "encinto_any"
 }
 
 func memGuarded(api string, s string, b []byte) (res string) {
